@@ -5,7 +5,7 @@ From V.Gen Require Import GenSrc.
 From V.Proofs Require Import SrcObligationsGen.
 
 Definition mk_cfg (gen dv tup forbid : bool) : ccfg :=
-  {| c_gen := gen; c_dv := dv; c_tuple := tup; c_forbid := forbid; c_recheck := src_recheck; c_kw_last := src_kw_last |}.
+  {| c_gen := gen; c_dv := dv; c_tuple := tup; c_forbid := forbid; c_recheck := src_recheck; c_kw_last := src_kw_last; c_tuple_kw := src_tuple_by_kw |}.
 
 Lemma mk_cfg_recheck gen dv tup forbid : c_recheck (mk_cfg gen dv tup forbid) = true.
 Proof. exact src_detailed_rechecks_errors. Qed.
